@@ -52,6 +52,7 @@ def gen(rng, tier, i):
                 batches[-1]['time'] = rng.choice([5, 12.5, 40, 1000])
                 batches.append({'stim': batches[-1]['stim'], 'keep_s': True, 'seed': batches[-1]['seed'], 'custom': []})
     for b in batches:
+        if rng.random() < 0.06: b['k0'] = True      # c_prop(sims=0): both code paths read 0 as 'no restriction'
         # the capture time as a user passes it: float32, Python float, float64 - also a float64 that is NOT a float32 value and
         # rounds to a transition time (np.linspace steps, clock periods like 0.7), placed by 'time_sel' on a transition of the run
         if rng.random() < 0.35 and b.get('time') is None:
